@@ -96,8 +96,16 @@ def a1(repo, res, canon, pc, logic):
         res.bad('C08.A1', t, None, 'no begin_observation / ingest spawn in Telescope.run', 'the telescope never starts observations')
         return
     targets = [('begin_observation', begins[0]), ('spawn of allocate_ingest', spawns[0])]
+    # the recorded start time is what Observation.is_finished measures from: it is written only for an
+    # observation that really starts
+    for n in walk_no_nested(t.node):
+        if isinstance(n, ast.Assign) and any(isinstance(x, ast.Attribute) and x.attr == 'ast' for x in n.targets):
+            targets.append(('the write of the start time (ast)', n))
     for label, node in targets:
-        obs = canon.c(node.args[0] if label.startswith('begin') else node.args[0].args[0], fr)
+        if label.startswith('the write'):
+            obs = canon.c([x for x in node.targets if isinstance(x, ast.Attribute) and x.attr == 'ast'][0].value, fr)
+        else:
+            obs = canon.c(node.args[0] if label.startswith('begin') else node.args[0].args[0], fr)
         ok = True
         why = ''
         wp = None
